@@ -21,6 +21,76 @@ pub fn main(args: &[String]) {
     }
 }
 
+/// `visibility`: a fixed battery of `from m import x` scenarios through the public `TypeChecker::check_with_imports` (replay of the
+/// import-visibility obligation): prints `VIS <scenario> ACCEPTED|REJECTED ..`.
+pub fn visibility_main(_args: &[String]) {
+    let dep_src = "pub def pub_fn() -> int:\n    return 1\n\ndef private_fn() -> int:\n    return 2\n\npub model PubType:\n    x: int\n\nconst PRIVATE_CONST: int = 3\n\npub enum Color:\n    Red\n    Green\n";
+    let scenarios: [(&str, &str, &str); 9] = [
+        ("pub_fn", "lib", "from lib import pub_fn\n\ndef main() -> None:\n    print(pub_fn())\n"),
+        ("private_fn", "lib", "from lib import private_fn\n\ndef main() -> None:\n    pass\n"),
+        ("pub_type", "lib", "from lib import PubType\n\ndef main() -> None:\n    pass\n"),
+        ("private_const", "lib", "from lib import PRIVATE_CONST\n\ndef main() -> None:\n    pass\n"),
+        ("pub_variant", "lib", "from lib import Red\n\ndef main() -> None:\n    pass\n"),
+        ("mixed", "lib", "from lib import pub_fn, private_fn\n\ndef main() -> None:\n    pass\n"),
+        ("nested_private", "a_b", "from a.b import private_fn\n\ndef main() -> None:\n    pass\n"),
+        ("nested_pub", "a_b", "from a.b import pub_fn\n\ndef main() -> None:\n    print(pub_fn())\n"),
+        ("unknown_module", "lib", "from elsewhere import private_fn\n\ndef main() -> None:\n    pass\n"),
+    ];
+    for (name, dep_name, main_src) in scenarios {
+        let r = std::panic::catch_unwind(|| {
+            let dt = incan::lexer::lex(dep_src).map_err(|e| format!("DEP-LEX-ERROR {}", e.len()))?;
+            let dep = incan::parser::parse(&dt).map_err(|e| format!("DEP-PARSE-ERROR {}: {}", e.len(), e[0].message))?;
+            let mt = incan::lexer::lex(main_src).map_err(|e| format!("LEX-ERROR {}", e.len()))?;
+            let main = incan::parser::parse(&mt).map_err(|e| format!("PARSE-ERROR {}: {}", e.len(), e[0].message))?;
+            let mut tc = incan::typechecker::TypeChecker::new();
+            match tc.check_with_imports(&main, &[(dep_name, &dep)]) {
+                Ok(()) => Ok("ACCEPTED".to_string()),
+                Err(e) => {
+                    let vis: Vec<String> = e.iter().filter(|x| x.message.contains("private or not exported")).map(|x| x.message.clone()).collect();
+                    if vis.is_empty() {
+                        // errors of another kind (e.g. unknown module): not a visibility verdict
+                        Ok(format!("ACCEPTED (other diagnostics: {})", e.iter().map(|x| x.message.clone()).collect::<Vec<_>>().join(" | ")))
+                    } else {
+                        Ok(format!("REJECTED {}: {}", vis.len(), vis.join(" | ")))
+                    }
+                }
+            }
+        });
+        match r {
+            Ok(Ok(s)) | Ok(Err(s)) => println!("VIS {name} {s}"),
+            Err(_) => println!("VIS {name} PANIC"),
+        }
+    }
+}
+
+/// `constval <file> <name>..`: type-check the file and print what the const evaluator folded for each named const
+/// (`CONST <name> <Debug of the value>` or `CONST <name> -`), through the public `TypeChecker::type_info().const_value()`.
+pub fn const_main(args: &[String]) {
+    let src = std::fs::read_to_string(&args[0]).expect("readable source file");
+    let names: Vec<String> = args[1..].to_vec();
+    let r = std::panic::catch_unwind(|| {
+        let tokens = incan::lexer::lex(&src).map_err(|e| format!("LEX-ERROR {}", e.len()))?;
+        let program = incan::parser::parse(&tokens).map_err(|e| format!("PARSE-ERROR {}", e.len()))?;
+        let mut tc = incan::typechecker::TypeChecker::new();
+        if let Err(e) = tc.check_program(&program) {
+            return Err(format!("REJECTED {}: {}", e.len(), e.iter().map(|x| x.message.clone()).collect::<Vec<_>>().join(" | ")));
+        }
+        let mut out = Vec::new();
+        for n in &names {
+            match tc.type_info().const_value(n) {
+                Some(v) => out.push(format!("CONST {n} {v:?}")),
+                None => out.push(format!("CONST {n} -")),
+            }
+        }
+        Ok(out.join("\n"))
+    });
+    match r {
+        Ok(Ok(s)) => println!("{s}"),
+        Ok(Err(e)) => println!("{e}"),
+        Err(_) => println!("PANIC"),
+    }
+}
+
 /// Lex, parse, type-check and generate Rust for a source file through the public API; prints the generated Rust.
 pub fn emit_main(args: &[String]) {
     let src = std::fs::read_to_string(&args[0]).expect("readable source file");
